@@ -351,4 +351,21 @@ class Repo implements Namespace { related: { owners: (SubjectSet<Team, "members"
 			"Org:root#admins@User:cy#", "Repo:r1#owners@Team:web#members", "Repo:r1#owners@Org:acme#admins", "Repo:r1#org@Org:acme#"},
 		checks: []string{"Repo:r1#push@User:ann#", "Repo:r1#push@User:ben#", "Repo:r1#push@User:cy#", "Repo:r1#read@User:ann#", "Org:acme#manage@User:cy#", "Org:acme#manage@User:ann#", "Team:web#members@User:ann#", "Repo:r1#owners@User:ben#"},
 	},
+	{ // two namespaces use the same relation name and the same object id; a traversal stays in ITS namespace: the target
+		// relation is only declared where the type checker looked for it
+		src: `class User implements Namespace {}
+class Org implements Namespace { related: { owners: User[] } }
+class Folder implements Namespace {
+  related: { viewers: User[] }
+  permits = { view: (ctx: Context): boolean => this.related.viewers.includes(ctx.subject) }
+}
+class Group implements Namespace { related: { parents: Org[]; viewers: Org[] } }
+class File implements Namespace {
+  related: { parents: Folder[]; viewers: User[] }
+  permits = { view: (ctx: Context): boolean => this.related.viewers.includes(ctx.subject) || this.related.parents.traverse((p) => p.permits.view(ctx)) }
+}`,
+		names:  []string{"shared", "docs", "acme", "alice", "bob", "carol"},
+		tuples: []string{"File:shared#parents@Folder:docs#", "Folder:docs#viewers@User:alice#", "Group:shared#parents@Org:acme#", "Group:shared#viewers@Org:acme#", "Org:acme#owners@User:carol#"},
+		checks: []string{"File:shared#view@User:alice#", "File:shared#view@User:bob#", "File:shared#view@User:carol#", "Folder:docs#view@User:alice#", "Group:shared#parents@Org:acme#"},
+	},
 }
